@@ -18,9 +18,13 @@ import (
 
 func init() {
 	Register(&Prop{ID: "C04", Gen: func(seed int64, tier string) *Scenario { return genRouting(seed, tier, "C04") }, Check: checkRouting,
-		Nontrivial: func(r *RunResult) bool { return r.Probes["conflicts"]+r.Probes["bindings_moved"] > 0 && r.Probes["route_ops"] > 4 }})
+		Nontrivial: func(r *RunResult) bool {
+			return r.Probes["conflicts"]+r.Probes["bindings_moved"] > 0 && r.Probes["route_ops"] > 4
+		}})
 	Register(&Prop{ID: "C05", Gen: func(seed int64, tier string) *Scenario { return genRouting(seed, tier, "C05") }, Check: checkRouting,
-		Nontrivial: func(r *RunResult) bool { return r.Probes["overlapping_deploys_on_common_pair"] > 0 || r.Probes["conflicts"] > 0 }})
+		Nontrivial: func(r *RunResult) bool {
+			return r.Probes["overlapping_deploys_on_common_pair"] > 0 || r.Probes["conflicts"] > 0
+		}})
 }
 
 // ---- reference model (from the property text) --------------------------------
